@@ -111,6 +111,10 @@ def judge_bs(x_train, grid, cfg, tol=1e-10):
 
     knots = [float(k) for k in st.get("knots", [])]
     # ---- recorded knot vector: what the statement calls "its recorded knot vector"
+    if not knots or not all(math.isfinite(k) for k in knots):
+        out.append(("C12.bs.knot-vector", "non-finite" + (":nulls-in-training" if len(finite) < len(x_train) else ""),
+                    f"recorded knot vector {knots} is not a knot vector (bounds {lb}, {ub})"))
+        return out
     n_inner = (cfg["df"] - degree - (1 if icpt else 0)) if cfg.get("df") is not None else len(cfg.get("knots") or [])
     nb = len(knots) - degree - 1  # number of basis functions incl. the intercept one
     valid = True
@@ -302,6 +306,10 @@ def _judge_cubic(x_train, grid, cfg, tol=1e-9):
     knots = [float(k) for k in st.get("knots", [])]
     nf = len(knots) - 1 if cyclic else len(knots)  # size of the cardinal basis
     ncols = nf - (1 if centred else 0)
+    if not knots or not all(math.isfinite(k) for k in knots):
+        out.append((f"C12.{name}.knot-vector", "non-finite" + (":nulls-in-training" if len(finite) < len(x_train) else ""),
+                    f"recorded knots {knots} are not a knot vector (bounds {lb}, {ub})"))
+        return out
     if len(knots) < 2 or any(b <= a for a, b in zip(knots, knots[1:])) or knots[0] != float(lb) or knots[-1] != float(ub):
         out.append((f"C12.{name}.knot-vector", "not-increasing-from-lb-to-ub", f"recorded knots {knots}, bounds ({lb}, {ub})"))
         return out
@@ -331,8 +339,16 @@ def _judge_cubic(x_train, grid, cfg, tol=1e-9):
             # rows of out-of-range training values are missing under 'na' (the materializer drops them): the mean is
             # then taken over the rows that remain
             rows = M[ins] if mode == "na" else M[idx]
+            if len(idx) < len(x) and len(ins) and np.isnan(M[ins]).any():
+                # nulls among the training values: their own rows are missing, every other row must be unaffected
+                out.append((f"C12.{name}.centering", "fit:nulls-in-training:rows-of-non-null-values-are-missing",
+                            f"{int(np.isnan(M[ins]).any(axis=1).sum())} of {len(ins)} rows of non-null in-range training "
+                            "values contain NaN"))
+                return
             if len(rows) and not bool((np.abs(rows.mean(axis=0)) <= 1e-10 * (1 + np.abs(rows).max())).all()):
                 cls = "fit:column-means"
+                if len(idx) < len(x):
+                    cls += ":nulls-in-training"
                 if mode in ("zero", "na") and outside(x):
                     cls += ":" + mode + "-mode-with-training-values-outside-bounds"
                 out.append((f"C12.{name}.centering", cls,
@@ -417,4 +433,5 @@ def judge_cubic(x_train, grid, cfg, tol=1e-9):
     else:
         n_knots = len(set(cfg.get("knots") or [])) + 2
     small = f":knots={n_knots}" if n_knots <= 3 else ""
-    return [(clause, cls + small, detail) for clause, cls, detail in _judge_cubic(x_train, grid, cfg, tol)]
+    return [(clause, cls + ("" if "nulls-in-training" in cls else small), detail)
+            for clause, cls, detail in _judge_cubic(x_train, grid, cfg, tol)]
